@@ -1212,6 +1212,15 @@ def _b_list(eng, args, kwargs):
         p.items, p.kinds, p.tup, p.n = None, ["int"], False, n
         p.cols = [z3.Lambda([i], to_z3(g(Sym(i, "int")), "int"))]
         return p
+    if hasattr(v, "__pyvc_iter_seq__"):  # an extension container that can be iterated (a set of ints: its ghost enumeration): the items in iteration order
+        n, g = v.__pyvc_iter_seq__(eng)
+        i = z3.Int(fresh_name("li"))
+        x = g(Sym(i, "int"))
+        if kind_of(x) is not None:
+            p = PList()
+            p.items, p.kinds, p.tup, p.n = None, [kind_of(x)], False, n
+            p.cols = [z3.Lambda([i], to_z3(x, kind_of(x)))]
+            return p
     return PList(iterate_concrete(eng, v))
 
 
@@ -1317,16 +1326,119 @@ def _b_abs(eng, args, kwargs):
     return abs(a)
 
 
+def drop_prefix(eng, seq, c):
+    """the sequence `seq` without its first c items (c: int or z3 Int term with 0 <= c <= len): what a one-shot iterator over `seq` still
+    yields after a consumer took c items"""
+    if isinstance(c, int) or z3.is_int_value(c):
+        c0 = c if isinstance(c, int) else c.as_long()
+        if c0 == 0:
+            return seq
+        try:
+            items = iterate_concrete(eng, seq)
+        except Unsupported:
+            items = None
+        if items is not None:
+            return PList(list(items[c0:]))
+    n, g = as_sequence(eng, seq)
+    cz = zint(c)
+    j = z3.Int(fresh_name("rest"))
+    x = g(Sym(j + cz, "int"))
+    xs = x if isinstance(x, tuple) else (x,)
+    kinds = [kind_of(e) for e in xs]
+    if any(k is None for k in kinds):
+        raise Unsupported("remainder of a one-shot iterator over non-scalar items")
+    p = PList()
+    p.items, p.kinds, p.tup = None, kinds, isinstance(x, tuple)
+    p.cols = [z3.Lambda([j], to_z3(e, k)) for e, k in zip(xs, kinds)]
+    p.n = z3.simplify((n.z if isinstance(n, Sym) else zint(n)) - cz)
+    if isinstance(seq, PList):
+        p.proto = seq.proto
+    return p
+
+
+def iter_advance(eng, it, c):
+    """a consumer took the first c items of the one-shot iterator `it` (c None: all of them) and stopped: the iterator keeps the rest.
+    A generator expression that pulls from another one-shot iterator hands the stop on: the upstream iterator was advanced by exactly
+    the items the generator asked for (position by position without a filter; with a filter the remainder is left unknown)."""
+    from .values import fresh_name as _fn
+
+    if c is None:
+        it.consumed = True
+        return
+    up = it.source
+    it.seq = drop_prefix(eng, it.seq, c)
+    if up is not None:
+        src, seq0, exact = up
+        if exact:
+            src.seq = drop_prefix(eng, seq0, c)
+        else:  # filtered: how far the source was read is not tracked -- any remainder (over-approximation)
+            n, g = as_sequence(eng, seq0)
+            x = g(Sym(z3.Int(_fn("j")), "int"))
+            kinds = [kind_of(e) for e in (x if isinstance(x, tuple) else (x,))]
+            if any(k is None for k in kinds):
+                raise Unsupported("remainder of a one-shot iterator over non-scalar items")
+            p = PList()
+            p.items, p.kinds, p.tup = None, kinds, isinstance(x, tuple)
+            p.cols = [z3.Const(_fn("rest"), z3.ArraySort(z3.IntSort(), {"int": z3.IntSort(), "real": z3.RealSort(), "bool": z3.BoolSort()}.get(k, z3.IntSort()))) for k in kinds]
+            m = z3.Int(_fn("restlen"))
+            eng.assume(z3.And(m >= 0, m <= (n.z if isinstance(n, Sym) else zint(n))))
+            p.n = m
+            src.seq = p
+        src.consumed = False
+
+
+def _first_deciding_position(eng, src, stop_on):
+    """all(src) / any(src) over a sequence of SYMBOLIC length: the result as a formula over positions, and CPython's short circuit.
+    f = the first position whose item decides the result (a falsy item for all, a truthy one for any), defined by
+    `every deciding position k has 0 <= f <= k and f decides`; found = (0 <= f < n and f decides).  all = not found, any = found.
+    A one-shot iterator is left with what follows position f (nothing when no position decides)."""
+    it = src if isinstance(src, Iter) else None
+    if it is not None and it.consumed:
+        return False, None  # nothing to look at: all -> True, any -> False
+    n, g = as_sequence(eng, src)
+    nz = n.z if isinstance(n, Sym) else zint(n)
+    k = z3.Int(fresh_name("k"))
+    t = eng.truth(g(Sym(k, "int")))
+    if isinstance(t, bool):
+        tz = z3.BoolVal(t)
+    else:
+        tz = to_z3(t, "bool")
+    stop = (lambda pos: z3.substitute(tz if stop_on else z3.Not(tz), (k, pos)))
+    eng.assumptions.add("python-model:all / any over a sequence of unknown length: the result is decided by the FIRST falsy (truthy) item, "
+                        "later items are not requested (a one-shot iterator keeps them)")
+    f = z3.Int(fresh_name("first"))
+    eng.assume(z3.ForAll([k], z3.Implies(z3.And(k >= 0, k < nz, stop(k)), z3.And(f >= 0, f <= k, stop(f)))))
+    found = eng.sbool(z3.And(f >= 0, f < nz, stop(f)))
+    if it is not None:
+        c = z3.simplify(z3.If(to_z3(found, "bool"), f + 1, nz))
+        iter_advance(eng, it, c)
+    return found, f
+
+
 def _b_any(eng, args, kwargs):
+    try:
+        items = iterate_concrete(eng, args[0])
+    except Unsupported:
+        if eng.spec_mode:
+            raise
+        found, _ = _first_deciding_position(eng, args[0], True)
+        return found
     acc = False
-    for x in iterate_concrete(eng, args[0]):
+    for x in items:
         acc = eng.or_(acc, eng.truth(x))
     return acc
 
 
 def _b_all(eng, args, kwargs):
+    try:
+        items = iterate_concrete(eng, args[0])
+    except Unsupported:
+        if eng.spec_mode:
+            raise
+        found, _ = _first_deciding_position(eng, args[0], False)
+        return (not found) if isinstance(found, bool) else Sym(z3.Not(found.z), "bool")
     acc = True
-    for x in iterate_concrete(eng, args[0]):
+    for x in items:
         acc = eng.and_(acc, eng.truth(x))
     return acc
 
